@@ -290,9 +290,43 @@ def history_case(case):
     return {"ok": True, "nt": True, "ops": 2, "out": case["entry"]}
 
 
-FUNCS = {"histories": history_case, "gates": roundtrip_case, "wrappers": roundtrip_case, "circuits": roundtrip_case, "circuit_sets": set_case}
+def fresh_case(case):
+    """{'npar': 0|1, 'rounds': r, 'keep': bool}: r custom definitions with ONE name and shape but different matrices are created, serialised and (unless keep) dropped one
+    after the other in one process - object addresses and names repeat, the matrices do not: each serialised form must carry the matrix of the definition it was made from"""
+    import gc
+    from orquestra.quantum import circuits as C
+    a = sympy.Symbol("a")
+    kept = []
 
-WRAPS = [("controlled", {"k": 1}), ("controlled", {"k": 2}), ("dagger", {}), ("power", {"e": 2}), ("power", {"e": 0.5}), ("exp", {})]
+    def one(i):
+        ph = sympy.Rational(i + 1, 7)
+        M = sympy.Matrix([[1, 0], [0, sympy.exp(sympy.I * ph)]]) if case["npar"] == 0 else sympy.Matrix([[sympy.cos(a), -sympy.sin(a) * (i + 2)], [sympy.sin(a), sympy.cos(a) + i]])
+        d = C.CustomGateDefinition("fresh", M, () if case["npar"] == 0 else (a,))
+        g = d() if case["npar"] == 0 else d(0.25)
+        c = C.Circuit([g(0), g.controlled(1)(1, 0)] if i % 2 else [g(1)])
+        text = json.dumps(C.to_dict(c))
+        back = C.circuit_from_dict(json.loads(text))
+        if case["keep"]:
+            kept.append((d, c))
+        return circuits_equal(c, back), text
+
+    seen = set()
+    for i in range(case["rounds"]):
+        bad, text = one(i)
+        gc.collect()
+        seen.add(text)
+        if bad:
+            return {"ok": False, "msg": "definition %d of the run (same name and shape as the earlier ones, other matrix): after the round trip %s" % (i, bad), "sig": "fresh:" + bad.split(":")[0].split(" ")[0], "ops": i + 1}
+    if len(seen) < case["rounds"] // 2:
+        return {"ok": False, "msg": "different definitions were serialised to the same text", "sig": "fresh:text", "ops": case["rounds"]}
+    return {"ok": True, "nt": True, "ops": case["rounds"], "out": "fresh%d" % case["npar"]}
+
+
+FUNCS = {"fresh_definitions": fresh_case, "histories": history_case, "gates": roundtrip_case, "wrappers": roundtrip_case, "circuits": roundtrip_case, "circuit_sets": set_case}
+
+WRAPS = [("controlled", {"k": 1}), ("controlled", {"k": 2}), ("dagger", {}), ("power", {"e": 2}), ("power", {"e": 0.5}), ("exp", {}), ("power", {"e": 0}), ("power", {"e": -1})]
+# more exponent / control values, used in depth-1 chains and as the inner wrapper of depth-2 chains
+WRAPS_EXTRA = [("power", {"e": 0.0}), ("power", {"e": 1}), ("power", {"e": -0.5}), ("power", {"e": 1 / 3}), ("power", {"e": 3}), ("power", {"e": -2.0}), ("controlled", {"k": 3})]
 
 
 def wrapper_chains(base, depth, direct):
@@ -303,6 +337,11 @@ def wrapper_chains(base, depth, direct):
             for w, kw in combo:
                 g = {"w": w, "of": g, **kw, **({"direct": True} if direct else {})}
             out.append(g)
+    for w, kw in WRAPS_EXTRA:
+        inner = {"w": w, "of": base, **kw, **({"direct": True} if direct else {})}
+        out.append(inner)
+        for w2, kw2 in WRAPS[:3]:
+            out.append({"w": w2, "of": inner, **kw2, **({"direct": True} if direct else {})})
     return out
 
 
@@ -372,7 +411,7 @@ def run(run):
         for b in sub:
             cc.append({"ops": [{"gate": a, "q": list(range(arity(a)))}, {"gate": b, "q": [q + 1 for q in range(arity(b))][::-1]}], "n": None, "pipe": "json"})
     secs.append(Section("circuits", cc, roundtrip_case, horizon=120, desc="empty circuits, idle qubits, all 2-operation combinations of a %d-gate sub-alphabet" % len(sub)))
-    sets = [{"circuits": [], "pipe": "json"}]
+    sets = [{"circuits": [], "pipe": "json"}, {"circuits": [], "pipe": "stringio"}, {"circuits": [{"ops": [], "n": 2}], "pipe": "stringio"}, {"circuits": [{"ops": [], "n": 1}] * 3, "pipe": "json"}]
     one = lambda g: {"ops": [{"gate": g, "q": list(range(arity(g)))}], "n": None}  # noqa: E731
     for a, b in itertools.product(sub[:10], repeat=2):
         sets.append({"circuits": [one(a), {"ops": [], "n": 2}, one(b)], "pipe": "json"})
@@ -390,5 +429,7 @@ def run(run):
             sets += [{"circuits": [one(g1), one(g2)], "pipe": pipe}, {"circuits": [one(g2), one(g1), one(g1), one(g2)], "pipe": pipe}]
     secs.append(Section("histories", [{"entry": e, "order": o} for e in ("sqrt", "third", "exact", "cos") for o in ("loaded+orig", "orig+loaded")], history_case, horizon=120,
                         desc="load a circuit with a custom gate, extend it with gates of the original definition, serialise again"))
+    secs.append(Section("fresh_definitions", [{"npar": k, "rounds": 24, "keep": keep} for k in (0, 1) for keep in (False, True)], fresh_case, horizon=300, chunk=1,
+                        desc="24 same-named custom definitions with different matrices created, serialised and dropped (or kept) one after the other in one process"))
     secs.append(Section("circuit_sets", sets, set_case, horizon=120, desc="lists of circuits through to_dict/JSON/circuitset_from_dict and save_/load_circuitset"))
     run.run_sections(secs)
